@@ -150,7 +150,7 @@ public:
 	: _allocator{std::move(allocator)} {
 		_length = generic_strlen(c_string);
 		_buffer = (Char *)_allocator.allocate(sizeof(Char) * (_length + 1));
-		memcpy(_buffer, c_string, sizeof(Char) * _length);
+		_copy(_buffer, c_string, _length);
 		_buffer[_length] = 0;
 	}
 
@@ -161,7 +161,7 @@ public:
 	basic_string(const Char *buffer, size_t size, Allocator allocator = Allocator())
 	: _allocator{std::move(allocator)}, _length{size} {
 		_buffer = (Char *)_allocator.allocate(sizeof(Char) * (_length + 1));
-		memcpy(_buffer, buffer, sizeof(Char) * _length);
+		_copy(_buffer, buffer, _length);
 		_buffer[_length] = 0;
 	}
 
@@ -172,7 +172,7 @@ public:
 	explicit basic_string(const basic_string_view<Char> &view, Allocator allocator = Allocator())
 	: _allocator{std::move(allocator)}, _length{view.size()} {
 		_buffer = (Char *)_allocator.allocate(sizeof(Char) * (_length + 1));
-		memcpy(_buffer, view.data(), sizeof(Char) * _length);
+		_copy(_buffer, view.data(), _length);
 		_buffer[_length] = 0;
 	}
 
@@ -191,7 +191,7 @@ public:
 	basic_string(const basic_string &other)
 	: _allocator{other._allocator}, _length{other._length} {
 		_buffer = (Char *)_allocator.allocate(sizeof(Char) * (_length + 1));
-		memcpy(_buffer, other._buffer, sizeof(Char) * _length);
+		_copy(_buffer, other._buffer, _length);
 		_buffer[_length] = 0;
 	}
 
@@ -211,7 +211,7 @@ public:
 			copy_length = new_length;
 
 		Char *new_buffer = (Char *)_allocator.allocate(sizeof(Char) * (new_length + 1));
-		memcpy(new_buffer, _buffer, sizeof(Char) * copy_length);
+		_copy(new_buffer, _buffer, copy_length);
 		new_buffer[new_length] = 0;
 
 		if(_buffer)
@@ -225,8 +225,8 @@ public:
 	basic_string operator+ (const basic_string_view<Char> &other) {
 		size_t new_length = _length + other.size();
 		Char *new_buffer = (Char *)_allocator.allocate(sizeof(Char) * (new_length + 1));
-		memcpy(new_buffer, _buffer, sizeof(Char) * _length);
-		memcpy(new_buffer + _length, other.data(), sizeof(Char) * other.size());
+		_copy(new_buffer, _buffer, _length);
+		_copy(new_buffer + _length, other.data(), other.size());
 		new_buffer[new_length] = 0;
 
 		basic_string result{_allocator};
@@ -240,7 +240,7 @@ public:
 	basic_string operator+ (Char c) {
 		size_t new_length = _length + 1;
 		Char *new_buffer = (Char *)_allocator.allocate(sizeof(Char) * (new_length + 1));
-		memcpy(new_buffer, _buffer, sizeof(Char) * _length);
+		_copy(new_buffer, _buffer, _length);
 		new_buffer[_length] = c;
 		new_buffer[new_length] = 0;
 
@@ -257,8 +257,8 @@ public:
 	basic_string &operator+= (const basic_string_view<Char> &other) {
 		size_t new_length = _length + other.size();
 		Char *new_buffer = (Char *)_allocator.allocate(sizeof(Char) * (new_length + 1));
-		memcpy(new_buffer, _buffer, sizeof(Char) * _length);
-		memcpy(new_buffer + _length, other.data(), sizeof(Char) * other.size());
+		_copy(new_buffer, _buffer, _length);
+		_copy(new_buffer + _length, other.data(), other.size());
 		new_buffer[new_length] = 0;
 
 		if(_buffer)
@@ -272,7 +272,7 @@ public:
 	basic_string &operator+= (Char c) {
 		/* TODO: SUPER INEFFICIENT should be done with a _capacity variable */
 		Char *new_buffer = (Char *)_allocator.allocate(sizeof(Char) * (_length + 2));
-		memcpy(new_buffer, _buffer, sizeof(Char) * _length);
+		_copy(new_buffer, _buffer, _length);
 		new_buffer[_length] = c;
 		new_buffer[_length + 1] = 0;
 
@@ -368,6 +368,12 @@ public:
 	}
 
 private:
+	// An empty view or string may have a null data pointer; memcpy() needs valid pointers even for n == 0.
+	static void _copy(Char *dest, const Char *src, size_t n) {
+		if(n)
+			memcpy(dest, src, sizeof(Char) * n);
+	}
+
 	Allocator _allocator;
 	Char *_buffer;
 	size_t _length;
